@@ -66,9 +66,25 @@ def dimensions_part(dimensions):
         for dim in dims.keys():
             (custom_dims if dim.startswith('dim_') else predefined_dims).append(dim)
         dim_keys = sorted(predefined_dims) + sorted(custom_dims)
-        return os.path.join(*(map(lambda k: k + "-" + str(dims.get(k, 'default')), dim_keys)))
+        return os.path.join(*(map(lambda k: _path_component(k + "-" + str(dims.get(k, 'default'))), dim_keys)))
     else:
         return ""
+
+
+def _path_component(name):
+    """
+    Dimension names and values are taken from the request. Escape everything
+    that would let them leave their directory. The escaping is reversible, so
+    different values never share a directory.
+
+    >>> _path_component('time-2020-08-25T00:00:00Z')
+    'time-2020-08-25T00:00:00Z'
+    >>> _path_component('time-../../50%/x')
+    'time-..%2F..%2F50%25%2Fx'
+    """
+    for char, escaped in (('%', '%25'), ('/', '%2F'), ('\\', '%5C'), ('\0', '%00')):
+        name = name.replace(char, escaped)
+    return name
 
 
 def level_part(level):
